@@ -8,6 +8,7 @@ use crate::stream::{ByteStream, DynByteStream, RemainingLength};
 use crate::utils::SyncBoxFuture;
 
 use std::fmt::{self, Debug};
+use std::ops::Not;
 use std::pin::Pin;
 use std::task::{Context, Poll};
 
@@ -132,10 +133,20 @@ impl AwsChunkedStream {
                     prev_signature: seed_signature,
                 };
 
+                // the upload is complete when the signed zero-length chunk has been seen
+                let mut seen_final_chunk = false;
+                let mut decoded_length: usize = 0;
+
                 loop {
                     let meta = {
                         match Self::read_meta_bytes(body.as_mut(), prev_bytes, &mut buf).await {
-                            None => break,
+                            None => {
+                                // end of the body: not in the middle of a chunk header, and not before the final chunk
+                                if buf.is_empty().not() || seen_final_chunk.not() {
+                                    return Err(AwsChunkedStreamError::Incomplete);
+                                }
+                                break;
+                            }
                             Some(Err(e)) => return Err(AwsChunkedStreamError::Underlying(e)),
                             Some(Ok(remaining_bytes)) => prev_bytes = remaining_bytes,
                         }
@@ -162,9 +173,17 @@ impl AwsChunkedStream {
                         Some(signature) => ctx.prev_signature = signature,
                     }
 
+                    seen_final_chunk = meta.size == 0;
+                    decoded_length = decoded_length.saturating_add(meta.size);
+
                     for bytes in data {
                         y.yield_ok(bytes).await;
                     }
+                }
+
+                // the payload must have the length declared in `x-amz-decoded-content-length`
+                if decoded_length != decoded_content_length {
+                    return Err(AwsChunkedStreamError::Incomplete);
                 }
 
                 Ok(())
